@@ -31,7 +31,7 @@ WORDS = ["foo", "bar", "x", "let", "=", "1;", "日本語", "é", "fn()", "{", "}
 
 
 # ------------------------------------------------------------------ white box: wrap_line
-CH = ["a", "b", "c", " ", "日", "本", "é", "́", "ｗ"]
+CH = ["a", "b", "c", " ", "日", "本", "é", "́", "ｗ", "\u200b"]   # U+200B: a zero-width cluster of its own
 
 
 def graphemes(s):
